@@ -598,6 +598,18 @@ def run(ctx: Ctx):
             if r["err"]:
                 ctx.violation(f"C15:{name}:chain-raises", f"chain {name} (seed {seed}) raised {r['err']} after {len(r['recs'])} iterations",
                               {"chain": name, "seed": seed})
+            elif r["rows"]:
+                # Logger.tla, McmcRows, on the file the real MCMC.run left behind (the calling discipline of the loop is the "mcmc"
+                # mode of that spec: log(sample=0) after initialize, then log(sample=e) for e = 1..n): rows 0, every, 2 every, ... <= n
+                n_done = len(r["recs"])
+                every = r["mjson"]["loggers"][0]["every"]
+                got_s = [int(float(x["sample"])) for x in r["rows"]]
+                want_s = [k * every for k in range(n_done // every + 1)]
+                ctx.add("log_files_checked_against_Logger_tla")
+                if got_s != want_s:
+                    ctx.add("model_drift")
+                    ctx.note(f"MODEL-DRIFT bind:logger-cadence chain {name} (seed {seed}): {n_done} iterations with every={every} left rows {got_s[:12]}...; "
+                             f"Logger.tla (McmcRows) says {want_s[:12]}...")
     # measured sign of boldness w.r.t. the adapted quantity, per operator type
     signs = {}
     for r in runs:
